@@ -89,6 +89,10 @@ func (e *Engine) siteOrdinal(fn *ssa.Function, c *ssa.CallCommon) (string, int) 
 }
 
 func (x *Exec) anchorExists(name string, k int) bool {
+	return true // a missing call site is handled by phantomAnchor (not called on any path)
+}
+
+func (x *Exec) anchorExistsStrict(name string, k int) bool {
 	if strings.Contains(name, ":") {
 		return true
 	}
@@ -127,6 +131,7 @@ func (x *Exec) phantomAnchor(st *State, name string, k int) *Anchor {
 	// find the call site to know the result types
 	short := lastComp(name)
 	var sig *types.Signature
+	sigOwner := ""
 	find := func(fn *ssa.Function) {
 		n := 0
 		for _, b := range fn.Blocks {
@@ -153,6 +158,38 @@ func (x *Exec) phantomAnchor(st *State, name string, k int) *Anchor {
 		find(x.root)
 		for _, an := range x.root.AnonFuncs {
 			find(an)
+		}
+	}
+	if sig == nil {
+		// the call no longer occurs in the function: it is "not called" on every path. Its result
+		// types are taken from a function or method of that name in the same package (or any
+		// interface method of that name), so that `called(@f#k)` clauses fail instead of the
+		// contract becoming unattachable.
+		for fn := range ssautil.AllFunctions(x.eng.prog) {
+			if fn.Name() == short && fnPkgPath(fn) == fnPkgPath(x.root) && fn.Signature != nil {
+				if sig == nil || fn.String() < sigOwner {
+					sig, sigOwner = fn.Signature, fn.String()
+				}
+			}
+		}
+		if sig == nil {
+			// a library function/method under a library contract
+			for fn := range ssautil.AllFunctions(x.eng.prog) {
+				if fn.Name() == short && fn.Signature != nil && x.eng.contractFor(fn) != nil {
+					if sig == nil || fn.String() < sigOwner {
+						sig, sigOwner = fn.Signature, fn.String()
+					}
+				}
+			}
+		}
+		if sig == nil {
+			for _, c := range x.eng.ifCon {
+				if c.FnName == short {
+					if m := x.eng.ifaceMethod(c.Key); m != nil {
+						sig = m.Type().(*types.Signature)
+					}
+				}
+			}
 		}
 	}
 	if sig == nil {
@@ -766,7 +803,26 @@ func (x *Exec) targetLocs(env *Env, m *Expr) []FrameLoc {
 				return nil // not a pointer: nothing to modify
 			}
 			root, p, idx, _ := st.resolve(ObjAddr{iv.Pay, pt.Elem()})
-			return []FrameLoc{{FamPrefix: root + "|" + p, Idx: idx[:1], typ: pt.Elem()}}
+			locs := []FrameLoc{{FamPrefix: root + "|" + p, Idx: idx[:1], typ: pt.Elem()}}
+			if _, isIface := pt.Elem().Underlying().(*types.Interface); isIface {
+				// a pointer to an interface cell (json.Unmarshal(b, &v) with v interface{}): the decoder
+				// writes through the pointer stored in the cell
+				inner, ok := env.loadAt(ObjAddr{iv.Pay, pt.Elem()}, pt.Elem()).(IfaceV)
+				if !ok {
+					return []FrameLoc{{FamPrefix: ""}}
+				}
+				n2, ok := isIntLit(inner.Tag)
+				if !ok {
+					return []FrameLoc{{FamPrefix: ""}}
+				}
+				if n2 != 0 {
+					if pt2, ok := reg.tagType(n2).(*types.Pointer); ok {
+						r2, p2, i2, _ := st.resolve(ObjAddr{inner.Pay, pt2.Elem()})
+						locs = append(locs, FrameLoc{FamPrefix: r2 + "|" + p2, Idx: i2[:1], typ: pt2.Elem()})
+					}
+				}
+			}
+			return locs
 		case "hdrmap":
 			// the rows of a map[string][]string (http.Header, url.Values) given by reference
 			tv := env.eval(m.Args[0])
@@ -1115,6 +1171,19 @@ func (x *Exec) lockOp(st *State, f *Frame, a Addr, lock bool) {
 			for _, l := range leavesOf(stt.Field(i).Type()) {
 				fam := root + "|" + path + l.Path
 				st.frameBase[fam] = st.heaps[fam]
+			}
+			switch ft := stt.Field(i).Type().Underlying().(type) {
+			case *types.Map:
+				fam := mapFam(ft.Key(), ft.Elem())
+				st.frameBase["MD|"+fam] = st.heaps["MD|"+fam]
+				for _, l := range leavesOf(ft.Elem()) {
+					st.frameBase["MV|"+fam+"|"+l.Path] = st.heaps["MV|"+fam+"|"+l.Path]
+				}
+			case *types.Slice:
+				for _, l := range leavesOf(ft.Elem()) {
+					k := "E|" + canon(ft.Elem()) + "|" + l.Path
+					st.frameBase[k] = st.heaps[k]
+				}
 			}
 		}
 		x.noteLib("monitor rule: sync.Mutex gives mutual exclusion; at Lock() guarded state is arbitrary subject to the type invariant")
